@@ -117,6 +117,18 @@ func Verif_C03_accept_first_byte() {
 		buf := make([]byte, 4)
 		rn, _ := got.conn.Read(buf)
 		verifapi.Assert("marker-consumed-payload-intact", verifapi.All(rn == len(payload), verifapi.SameBytes(buf[:rn], payload)))
+		// while the stream is up, notices about packets to the peer arrive (e.g. during re-routing): only
+		// "service unknown" for exactly the peer's address may end the stream; "message expired" must not
+		problem := []string{ProblemExpiredInTransit, ProblemRejected, ProblemServiceUnknown}[verifapi.Choose(3)]
+		um := &UnreachableMessage{FromNode: "A", FromService: "svc", ToNode: "B", ToService: "x", Problem: problem}
+		_ = n.s.handleMessageData(&MessageData{FromNode: "M", ToNode: "A", FromService: "unreach", ToService: "unreach", HopsToLive: 5, Data: verifapi.JSON(um)})
+		verifapi.Quiesce()
+		if problem == ProblemServiceUnknown {
+			verifapi.Assert("stream-ended-when-peer-service-is-gone", *st.closed >= 1)
+		} else {
+			verifapi.Cover("transient-notice")
+			verifapi.Assert("stream-survives-transient-routing-notices", *st.closed == 0)
+		}
 	} else {
 		verifapi.Cover("refused")
 		verifapi.Assert("stream-without-marker-refused", got.err != nil && got.conn == nil)
